@@ -362,5 +362,11 @@ pub fn faithful_neighbourhood() -> Vec<(String, SettingsSpec)> {
     add("subst=btreemap", &|s| {
         s.substitutes.push(("BTreeMap".into(), "::sub::KeyedVec".into()))
     });
+    // a rule whose target does not mention the FIRST source parameter; the target's shape is known to the
+    // interpreter (a u8-keyed map, which is what every BTreeMap of these drivers is), so the shape check sees
+    // whether the rule hands over the right argument
+    add("subst=btreemap-values", &|s| {
+        s.substitutes.push(("BTreeMap<K, V>".into(), "::ext::U8Keyed<V>".into()))
+    });
     v
 }
